@@ -8,17 +8,17 @@ NA_DEFAULT = "check not built yet (build round in progress); see DESIGN.md secti
 CLAIMED = {
  "C04": dict(
   technique="static analysis: decision-table extraction by abstract interpretation of go/ssa (no execution, no solver), field-flow PAIR rules, dominator rules, who-may-write rules",
-  text="Decides the complete precondition truth table of checkConditionalMatches and ConditionalMatch.MatchETag over resource state x each header in {unset, *, equal tag, other tag, not a quoted string} against the statement; that the check and every path check dominate the first destructive OS call; that option fields reach the check's parameters and header values reach the option fields of the same name unaltered and unswapped in all three servers, the filled options being the value handed to the backend; that FileInfo.ETag has one producer and every ETag header is written through internal.ETag.String. Does not decide equality of the tag strings produced at run time for one unmodified file, nor arbitrary bytes through %q/Unquote (standard-library contract).",
+  text="Decides the complete precondition truth table of checkConditionalMatches and ConditionalMatch.MatchETag over resource state x each header in {unset, *, equal tag, other tag, not a quoted string} against the statement; that the check and every path check dominate the first destructive OS call; that option fields reach the check's parameters and header values reach the option fields of the same name unaltered and unswapped in all three servers, the filled options being the value handed to the backend; that FileInfo.ETag has one producer and every ETag header is written through internal.ETag.String. Does not decide equality of the tag strings produced at run time for one unmodified file, nor arbitrary bytes through %q/Unquote (standard-library contract). Every store to FileInfo.ETag in the producer is definitely non-empty; every announcement of a tag uses the same inverse of strconv.Unquote.",
   note="Trusted: go/ssa; my model of strconv.Unquote (fails, or yields an opaque string); a present resource has a non-empty tag.",
   ref="DESIGN.md §3 C04"),
  "C05": dict(
   technique="static analysis: field-flow PAIR rules over go/ssa, who-may-call rule, decision-table extraction by abstract interpretation, dominator (presence-guard) rule, property-table/struct-tag agreement",
-  text="Structural necessary clauses: every FileInfo field flows into the matching PROPFIND property and GET/HEAD header on the server and is written from the matching wire property on the client (kind via ResourceType.Is(collection)); presence guards are on the non-zero side; property tables are keyed by the element they write; http.NewRequest is called only in internal.(*Client).NewRequest with ResolveHref(name).String(), every Destination header is ResolveHref(dest).String(), and ResolveHref's table is 'leading slash as is, else joined to the endpoint path'; the client's Copy/Move/ReadDir send exactly the Overwrite/Depth values that the server tables of C01 map back to the requested options. Does not decide the fidelity of URL/XML/HTTP-date escaping on particular characters nor byte-for-byte upload content (run-time behaviour of net/url, encoding/xml, net/http). Also: which properties are registered for a file as a function of its FileInfo (length always), ReadDir's listing table under a Walk model with SkipDir semantics, truncation of write-opens, no re-parsing of decoded paths, UTC normalisation of HTTP dates, and the server-side dispatch and adapter tables (so that 'exactly the requested options' is decided end to end by this check).",
+  text="Structural necessary clauses: every FileInfo field flows into the matching PROPFIND property and GET/HEAD header on the server and is written from the matching wire property on the client (kind via ResourceType.Is(collection)); presence guards are on the non-zero side; property tables are keyed by the element they write; http.NewRequest is called only in internal.(*Client).NewRequest with ResolveHref(name).String(), every Destination header is ResolveHref(dest).String(), and ResolveHref's table is 'leading slash as is, else joined to the endpoint path'; the client's Copy/Move/ReadDir send exactly the Overwrite/Depth values that the server tables of C01 map back to the requested options. Does not decide the fidelity of URL/XML/HTTP-date escaping on particular characters nor byte-for-byte upload content (run-time behaviour of net/url, encoding/xml, net/http). Also: which properties are registered for a file as a function of its FileInfo (length always), ReadDir's listing table under a Walk model with SkipDir semantics, truncation of write-opens, no re-parsing of decoded paths, UTC normalisation of HTTP dates, and the server-side dispatch and adapter tables (so that 'exactly the requested options' is decided end to end by this check). The tag, date and href codecs are inverse pairs (shared with C16.pairs); url.ResolveReference is kept apart from path.Join in ResolveHref's table.",
   note="Trusted: go/ssa; flows are may-flows (a missing flow is definite, a present flow may still be wrong in value).",
   ref="DESIGN.md §3 C05"),
  "C10": dict(
   technique="static analysis: field-flow PAIR rules over go/ssa (per public client method), decision-table extraction by abstract interpretation (multiget), dominator (presence-guard) rule, property-table/struct-tag agreement, struct-tag schema check against RFC element tables",
-  text="Structural necessary clauses: each named attribute of Calendar/AddressBook/CalendarObject/AddressObject flows from the backend's value into the matching response property, header and body encoder on the server, and every field of the values returned by each public client method is written from the matching wire property or header (per method, so a dropped assignment in one method is not masked by another); PUT hands the caller's object to the encoder; presence guards are on the non-zero side; property tables are keyed by the element they write; multiget answers every href exactly once in order with the object or the backend's own status (exhaustive for <= 2 hrefs); all wire structs agree with the RFC element tables. Does not decide the iCalendar/vCard text round trip (go-ical/go-vcard), escaping, or lexical variants of incoming documents. Also: property-set tables, NewErrorResponse over bare/wrapped errors, Response.DecodeProp over <= 2 propstats (a failing propstat that does not contain the property is skipped), UTC normalisation, no re-parsing of decoded paths.",
+  text="Structural necessary clauses: each named attribute of Calendar/AddressBook/CalendarObject/AddressObject flows from the backend's value into the matching response property, header and body encoder on the server, and every field of the values returned by each public client method is written from the matching wire property or header (per method, so a dropped assignment in one method is not masked by another); PUT hands the caller's object to the encoder; presence guards are on the non-zero side; property tables are keyed by the element they write; multiget answers every href exactly once in order with the object or the backend's own status (exhaustive for <= 2 hrefs); all wire structs agree with the RFC element tables. Does not decide the iCalendar/vCard text round trip (go-ical/go-vcard), escaping, or lexical variants of incoming documents. Also: property-set tables, NewErrorResponse over bare/wrapped errors, Response.DecodeProp over <= 2 propstats (a failing propstat that does not contain the property is skipped), UTC normalisation, no re-parsing of decoded paths. Also the client's status tables (Response.Path, sync-collection deletions; shared with C14) and the inverse-pair rule for tag, date and href codecs including the header readers.",
   note="Trusted: go/ssa; RFC tables in checker/e6_schema.go. Child order of DAV: elements is only noted (RFC 4918 §14 declares it irrelevant).",
   ref="DESIGN.md §3 C10"),
  "C08": dict(
@@ -78,7 +78,7 @@ CLAIMED = {
   ref="DESIGN.md §3 C15"),
  "C01": dict(
   technique="static analysis: decision tables and fault exploration by abstract interpretation of the whole file server's go/ssa (typed abstract OS errors), plus structural rules",
-  text="Decides the structural part only, not the equivalence with the resource-tree model: the dispatch and success-code table, the COPY/MOVE/PROPFIND header tables, the adapter's option polarity and code-decided refusals, and, by exploring webdav.(*Handler).ServeHTTP with LocalFileSystem bound over every outcome of every OS call (resource states and errno classes as typed abstract errors), the status that reaches the client, compared with the RFC 4918 scenario table; plus two structural conditions of COPY/MOVE (the Walk callback addresses effects through its path parameter; source and destination are compared). Known defects of the pinned tree (status mapping D9, COPY/MOVE structure D10) are listed in known_findings.json. Does not decide the tree after a successful request, bodies/headers of GET/PROPFIND, nor request sequences. Also: a request during which nothing goes wrong in the operating system is never answered 5xx (the exploration is replayed over an abstract per-resource state: a call that cannot succeed in the state the request itself observed is the code's own doing); every file opened for writing by PUT/COPY is truncated; ServeError answers with the status found anywhere in the error chain.",
+  text="Decides the structural part only, not the equivalence with the resource-tree model: the dispatch and success-code table, the COPY/MOVE/PROPFIND header tables, the adapter's option polarity and code-decided refusals, and, by exploring webdav.(*Handler).ServeHTTP with LocalFileSystem bound over every outcome of every OS call (resource states and errno classes as typed abstract errors), the status that reaches the client, compared with the RFC 4918 scenario table; plus two structural conditions of COPY/MOVE (the Walk callback addresses effects through its path parameter; source and destination are compared). Known defects of the pinned tree (status mapping D9, COPY/MOVE structure D10) are listed in known_findings.json. Does not decide the tree after a successful request, bodies/headers of GET/PROPFIND, nor request sequences. Also: a request during which nothing goes wrong in the operating system is never answered 5xx (the exploration is replayed over an abstract per-resource state: a call that cannot succeed in the state the request itself observed is the code's own doing); every file opened for writing by PUT/COPY is truncated; ServeError answers with the status found anywhere in the error chain. The sanitiser's acceptance table is part of this check (no name that denotes a resource is refused).",
   note="Trusted: go/ssa; the interpreter's models of os, path/filepath and net/http calls and the errno classes each call can produce (checker/p_fs.go); one resource plus at most one member per directory.",
   ref="DESIGN.md §3 C01, Appendix A"),
  "C02": dict(
@@ -88,12 +88,12 @@ CLAIMED = {
   ref="DESIGN.md §3 C02"),
  "C17": dict(
   technique="static analysis: taint (host-path bit on abstract strings) through an abstract interpretation of the whole file server's go/ssa with typed abstract OS errors",
-  text="Decides the property over the explored domain: for every method, every resource state and every outcome of every OS call the file server makes, nothing written to the ResponseWriter (error text, header values, content name) mentions the host path; the Error() texts of *fs.PathError/*os.LinkError carry their paths and errFromOS is analysed, not assumed. Reported hrefs are relative by C03.hrefs.",
+  text="Decides the property over the explored domain: for every method, every resource state and every outcome of every OS call the file server makes, nothing written to the ResponseWriter (error text, header values, content name) mentions the host path; the Error() texts of *fs.PathError/*os.LinkError carry their paths and errFromOS is analysed, not assumed. Reported hrefs are relative by C03.hrefs. Every explored run is examined (not one per deciding fault), and the encoded multi-status body is scanned for host-path-tainted strings (hrefs).",
   note="Trusted: go/ssa; the Error() formats of the standard OS error types; the OS-call models (checker/p_fs.go).",
   ref="DESIGN.md §3 C17"),
  "C11": dict(
   technique="static analysis: decision tables by abstract interpretation of go/ssa (PROPFIND core and the three adapters)",
-  text="Extracts from the SSA of the current source the decision tables of NewPropFindResponse (request forms; per-property accounting for <=2 requested names: known/failing/unknown; propname and allprop), of Response.EncodeProp (one propstat per status), of the three adapters' PropFind (responses emitted as a function of Depth, hierarchy level and ownership), of ServeMultiStatus (207 before the body), of the Depth/body handling (dispatch table shared with C01) and of the principal helper, and compares every row with the statement. Does not decide duplicates in the request, the bytes produced by encoding/xml, nor arbitrary numbers of members (lists bounded by 1-2). Also: which properties are registered as a function of the backend's value (a file's length always, attributes whose zero means unknown only when non-zero).",
+  text="Extracts from the SSA of the current source the decision tables of NewPropFindResponse (request forms; per-property accounting for <=2 requested names: known/failing/unknown; propname and allprop), of Response.EncodeProp (one propstat per status), of the three adapters' PropFind (responses emitted as a function of Depth, hierarchy level and ownership), of ServeMultiStatus (207 before the body), of the Depth/body handling (dispatch table shared with C01) and of the principal helper, and compares every row with the statement. Does not decide duplicates in the request, the bytes produced by encoding/xml, nor arbitrary numbers of members (lists bounded by 1-2). Also: which properties are registered as a function of the backend's value (a file's length always, attributes whose zero means unknown only when non-zero). No closure that outlives its loop iteration captures the loop's own variable (property functions run long after the table is built); what is filed under a failure status is an empty element, not the client's own element.",
   note="Trusted: go/ssa; the user's Backend is an opaque interface whose calls are effects; resourceTypeAtPath's result is an atom.",
   ref="DESIGN.md §3 C11"),
  "C12": dict(
